@@ -242,7 +242,70 @@ static size_t loop_gen(long idx, uint8_t *payload, char *human, size_t hn) {
 	snprintf(human, hn, "C01 catalogue cases %u..%u looped back", start, start + count - 1); return 8;
 }
 
-void c02_register(void) { harness_register("c02.fault", fault_child); harness_register("c02.chunk", chunk_child); harness_register("c02.loop", loop_child); }
+
+/* ---------------------------------------------------------------- c02.long: packets of every payload size up to the maximum
+ * A node may fill a packet up to the packet capacity, which MSG_PKT_CAPACITY expresses in one byte: every payload size
+ * 4..255 (+ CRC) is a packet the receiver has to split and deliver.  For every size: the payload is tiled with messages
+ * (<= 64 bytes each, address depth 0..3 by turns), in four variants: plain data, data full of 0xFE/0xFD (the escapes do not
+ * count towards the unescaped size), first message short, last message short; each followed by a small packet sharing the
+ * delimiter.  Sizes 256..300 are fed as well: what happens to them is not prescribed, but the packet BEHIND them has to be
+ * delivered. */
+static int build_long(int size, int variant, uint8_t *payload) {
+	static const uint8_t ADDRS[4][4] = {{0, 0, 0, 0}, {5, 0, 0, 0}, {1, 2, 0, 0}, {1, 2, 3, 0}};
+	int o = 0, k = 0;
+	while (o < size) {
+		int depth = k % 4, hdr = 4 + depth, rem = size - o;
+		if (rem < hdr) { depth = 0; hdr = 4; }
+		if (rem < 4) return -1;
+		int want = (variant == 2 && k == 0) ? hdr : 64;
+		int len = rem < want ? rem : want;
+		if (rem - len > 0 && rem - len < 7) len = rem - 7 >= hdr ? rem - 7 : len;     /* leave room for a last message (deepest header is 7 bytes) */
+		if (variant == 3 && rem > 4 + 64 && rem - len < 4 + 8) len = rem - 4;        /* last message short */
+		if (len < hdr) return -1;
+		uint8_t d[64]; int dl = len - hdr;
+		for (int i = 0; i < dl; i++) d[i] = variant == 1 ? (uint8_t) ((i & 1) ? 0xFD : 0xFE) : (uint8_t) (0x10 + (i * 7 + k) % 0xE0);
+		o += rc_build_msg(payload + o, ADDRS[depth], (uint8_t) (k + 1), (uint8_t) (0x81 + k % 5), d, dl); k++;
+	}
+	return o == size ? o : -1;
+}
+typedef struct { int32_t from, count; } ljob_t;
+static void long_child(const void *job, size_t n) {
+	vs_dev_t devs[VS_MAXDEV]; int nd; size_t pl; const uint8_t *p = job_parse(job, n, devs, &nd, &pl);
+	ljob_t j; memcpy(&j, p, sizeof j);
+	hx_child_begin(NULL, 0, 0, NULL, 0, 0);
+	if (hx_start_debug(0)) res_infra("start failed");
+	hx_quiesce();
+	uint8_t m0[16], f0[40]; int l0 = rc_build_msg(m0, PROBE_ADDR, 0, MSG_SYS_PONG, (const uint8_t *) "\x01", 1); env_push_quiet(f0, rc_frame(f0, m0, (size_t) l0, 1)); vs_point(); hx_quiesce();
+	uint8_t *g = bidib_read_message(); free(g);
+	long cases = 0; hx_hash_t h; hx_hash_init(&h);
+	for (int c = j.from; c < j.from + j.count; c++) {
+		int size = 4 + c / 4, variant = c % 4; static uint8_t payload[400], stream[1400]; char what[100];
+		if (build_long(size, variant, payload) < 0) continue;
+		snprintf(what, sizeof what, "packet with %d payload bytes (variant %d)", size, variant);
+		size_t sl = rc_frame(stream, payload, (size_t) size, 0);                  /* the previous packet's delimiter is shared */
+		sl += (size_t) probe_frame(stream + sl);
+		cases++;
+		if (size <= 255) { if (!run_stream(stream, (int) sl, NULL, 0, what)) break; }
+		else {
+			/* oversized: only the packet behind it is judged */
+			env_push_quiet(stream, sl); vs_point(); hx_quiesce();
+			uint8_t *m, *last = NULL; while ((m = bidib_read_message())) { free(last); last = m; }
+			uint8_t pm[16], dd = 0x77; int pml = rc_build_msg(pm, PROBE_ADDR, 0, MSG_SYS_PONG, &dd, 1);
+			if (!last || last[0] + 1 != pml || memcmp(last, pm, (size_t) pml)) { res_violation("message-not-delivered-after-oversized-packet: an oversized packet disturbed the decoding of the next packet", "%s", what); free(last); break; }
+			free(last); drain_errq(what);
+		}
+		hx_hash_add(&h, &c, sizeof c);
+	}
+	res_printf("O %llx %llx\nC long_cases %ld\n", (unsigned long long) h.a, (unsigned long long) h.b, cases);
+	res_finish();
+}
+#define LONG_CASES ((300 - 4 + 1) * 4)
+#define LONG_BATCH 40
+static size_t long_gen(long idx, uint8_t *payload, char *human, size_t hn) {
+	ljob_t j = { (int32_t) (idx * LONG_BATCH), LONG_BATCH }; if (j.from + j.count > LONG_CASES) j.count = LONG_CASES - j.from;
+	memcpy(payload, &j, sizeof j); snprintf(human, hn, "payload sizes %d..%d x 4 variants", 4 + j.from / 4, 4 + (j.from + j.count - 1) / 4); return sizeof j;
+}
+void c02_register(void) { harness_register("c02.long", long_child); harness_register("c02.fault", fault_child); harness_register("c02.chunk", chunk_child); harness_register("c02.loop", loop_child); }
 int c02_run(const char *tier) {
 	g_thorough = !strcmp(tier, "thorough");
 	long execs = 0, states = 0; int exhaustive = 1;
@@ -259,7 +322,10 @@ int c02_run(const char *tier) {
 	ex_map(&c); execs += c.done; states += c.distinct_outcomes; if (!c.exhaustive) exhaustive = 0;
 	ex_spec_t l = { .harness = "c02.loop", .ncases = (bytes_total() + LOOP_BATCH - 1) / LOOP_BATCH, .gen = loop_gen, .label = "c02.loop" };
 	ex_map(&l); execs += l.done; states += l.distinct_outcomes; if (!l.exhaustive) exhaustive = 0;
-	long cases = rep_get("fault_cases") + rep_get("chunk_cases") + rep_get("loopback_cases");
+	ex_spec_t lg = { .harness = "c02.long", .ncases = (LONG_CASES + LONG_BATCH - 1) / LONG_BATCH, .gen = long_gen, .label = "c02.long" };
+	ex_map(&lg); execs += lg.done; states += lg.distinct_outcomes; if (!lg.exhaustive) exhaustive = 0;
+	rep_note("long packets: %ld cases (payload sizes 4..300 x 4 tilings; sizes <= 255 must be delivered message by message, behind larger ones the next packet must be)", rep_get("long_cases"));
+	long cases = rep_get("fault_cases") + rep_get("chunk_cases") + rep_get("loopback_cases") + rep_get("long_cases");
 	rep_count("executions", execs); rep_count("states", states); rep_count("transitions", cases); rep_flag("exhaustive", exhaustive);
 	rep_count("distinct_nontrivial", cases);
 	rep_note("streams=%ld, corrupted-stream cases=%ld, chunking cases=%ld, loop-back cases=%ld, packets the property leaves open (skipped individually)=%ld",
